@@ -25,6 +25,14 @@ PROPS = {
         units=['nint', 'nnum', 'builtins'],
         not_covered='lazy_is_prime / lazy_factorize / even / odd; literal parsing',
     ),
+    'C08': dict(
+        units=['nint', 'nnumcmp'],
+        not_covered='Obj/Seq PartialOrd (std Vec comparison), ncmp, ComparisonOperator, Extremum, sorted; incomparable kinds raise',
+    ),
+    'C09': dict(
+        units=['nint', 'nnumcmp'],
+        not_covered='dictionary operations (std HashMap + closures in lib.rs); Dict-inside-key arm',
+    ),
     'C12': dict(
         units=['istype'],
         not_covered='pattern matching, switch, destructuring, annotation enforcement on assignment paths, satisfying types',
